@@ -1,3 +1,5 @@
+import DC.Gen.ReaderUse
+import DC.Gen.Writes
 import DC.Proofs.StmtLoopToy
 
 /-!
@@ -171,5 +173,16 @@ example : ¬ (∀ rest, toyParse (Window.ofList ([sel 0] ++ rest)) =
   rw [toyParse_ofList_cons] at this
   simp [toyRest, sel, tBAD, DC.Gen.Tokens.tSELECT, DC.Gen.Tokens.tSEMICOLON,
     DC.Gen.Tokens.tPARALLEL, DC.Gen.Tokens.tILLEGAL, Window.ofList, kindIs] at this
+
+/-- Regenerated obligation: the only state a `Parser` carries from one statement to the next is its lexer, the
+three-token window and the error list (plus the empty / step-counting `verif` hook field), and the library packages
+have no package-level variable that is written outside `init`. So "nothing carries over" can only fail through the
+look-ahead window, which is what `SelfContained` isolates, or through the lexer's own state (C12/C14). A new field or
+a new written global makes this theorem fail to re-check. -/
+theorem parser_state_is_window_and_errors :
+    DC.Gen.ReaderUse.parserFields =
+      ["lexer *lexer.Lexer", "current lexer.Item", "peek lexer.Item", "peekPeek lexer.Item", "errors []error", "verif verifState"] ∧
+    DC.Gen.ReaderUse.lexerFields = ["reader *bufio.Reader", "ch rune", "pos token.Position", "eof bool", "err error"] ∧
+    DC.Gen.Writes.globalWrites = [] := by decide
 
 end DC.Props.C06
